@@ -1104,7 +1104,8 @@ IMPORTS_SRC = IMPORTS + "From PV Require C01.SrcRun C01.SrcRunP.\n"
 SRC_TIE_SAMPLE = 1500  # per entry point (ed / prefix)
 SRC_THEOREMS = ["c01_source_loop_body_is_step_row", "c01_source_loop_is_rows", "c01_source_edit_distance_is_model",
                 "c01_source_string_matching_is_model", "c01_source_string_matching_is_lev",
-                "c01_source_edit_distance_is_lev"]
+                "c01_source_edit_distance_is_lev", "c01_source_prefix_is_model", "c01_source_prefix_blocks_is_model",
+                "c01_source_prefix_is_spec", "c01_source_prefix_is_lev", "c01_source_prefix_loop_body_is_step_row"]
 
 
 def _src_tie_eligible(case, out):
